@@ -55,7 +55,10 @@ def main():
     # by other means (checked by hand: the recorded failing input of the earlier fix passes with the reverse patch applied)
     superseded = {"18a8bea": "3647b85 (TreeClone keeps words apart across an omitted block)",
                   "38b5097": "3647b85 (TreeClone keeps words apart across an omitted block)",
-                  "5af224c": "4f94807 (a hidden figcaption is no caption: the nil clone is never built)"}
+                  "5af224c": "4f94807 (a hidden figcaption is no caption: the nil clone is never built)",
+                  "7d4ad41": "d786203 (candidates are evaluated in sorted order: the write into the shared list no longer makes "
+                             "the result depend on the run; what it still changes is which pagination odd pagers such as 1 3 5 "
+                             "get, which no property judges)"}
     results = []
     for p in sorted(glob.glob(os.path.join(ROOT, "mutants", "revert-*.patch"))):
         c = os.path.basename(p).split("-")[1]
